@@ -9,7 +9,12 @@
 -/
 import PsutilModel.Proofs.C06
 import PsutilModel.Proofs.C06Status
+import PsutilModel.Proofs.C06Ctx
+import PsutilModel.Proofs.C06Witness
+import Mathlib.Tactic.NormNum
 import PsutilModel.Model.C06Gen
+deriving instance DecidableEq for Except
+
 namespace Psutil.C06
 open Spec
 
@@ -132,5 +137,127 @@ theorem C06_threads_exact : ThreadsExact cfg := threads_exact_of_good cfg cfg_go
 theorem C06_threads_view (tck : Nat) (r : StatRec) :
     (⟨r.pid, (r.utime : Rat) / tck, (r.stime : Rat) / tck⟩ : ThreadOut)
       = ⟨(threadView tck r).id, (threadView tck r).userTime, (threadView tck r).systemTime⟩ := rfl
+
+/-- the namedtuple layouts the correspondence check reads by name -/
+theorem C06_tuple_fields :
+    Gen.C06.pcputimesFields = ["user", "system", "children_user", "children_system", "iowait"]
+    ∧ Gen.C06.pthreadFields = ["id", "user_time", "system_time"] := by decide
+
+/-! ### lead L8: `threads()` with the FIRST `)` (the code before the fix) -/
+
+/-- the model with `st.find(b')')`, every other fact as in the current source -/
+def cfgThreadsFind : Cfg := { cfg with threadsUsesRfind := false }
+
+/-- with the first `)`, `values[11]` is the `cmajflt` column ("0"), not utime ("300") -/
+theorem witnessThread_misread :
+    getField (threadValues cfgThreadsFind (renderStat witnessThread)) cfgThreadsFind.tUtime = .ok [48]
+    ∧ getField (threadValues cfgThreadsFind (renderStat witnessThread)) cfgThreadsFind.tStime
+        = .ok [51, 48, 48] := by
+  rw [witnessThread_bytes]; decide
+
+/-- `threads()` locating the FIRST `)` reports user_time 0.0 / system_time 3.0 for that thread
+    instead of 3.0 / 4.0: the full statement is false of that code. -/
+theorem C06_threads_first_paren_counterexample : ¬ ThreadsExact cfgThreadsFind := by
+  intro h
+  have h1 := h 100 [witnessThread] (by intro r hr; simp at hr; subst hr; exact witnessThread_wf)
+  have p0 : pyInt [48] = .ok 0 := by decide
+  have p300 : pyInt [51, 48, 48] = .ok 300 := by decide
+  simp only [List.map_cons, List.map_nil, threads, threadOne, witnessThread_misread.1,
+    witnessThread_misread.2, pyFloat, p0, p300, bind, Except.bind, pure, Except.pure,
+    Except.map, Except.ok.injEq, List.cons.injEq, ThreadOut.mk.injEq] at h1
+  have h2 := h1.1.2.1
+  simp only [witnessThread] at h2
+  norm_num at h2
+
+/-! ## `/proc/<pid>/status` -/
+
+def UidsExact (c : Cfg) : Prop :=
+  ∀ r : StatusRec, r.WF → uids c (renderStatus r) = .ok (Spec.uids r)
+def GidsExact (c : Cfg) : Prop :=
+  ∀ r : StatusRec, r.WF → gids c (renderStatus r) = .ok (Spec.gids r)
+def NumThreadsExact (c : Cfg) : Prop :=
+  ∀ r : StatusRec, r.WF → numThreads c (renderStatus r) = .ok (Spec.numThreads r)
+
+/-- `uids()`, `gids()`, `num_threads()` return the numbers of the real `Uid:`, `Gid:`, `Threads:`
+    lines for EVERY process name (any bytes, any length — the kernel's escaping of `\n` is what
+    makes a line start unforgeable) and any set of other lines. -/
+theorem C06_status_extract : UidsExact cfg ∧ GidsExact cfg ∧ NumThreadsExact cfg :=
+  ⟨fun r h => uids_extract cfg cfg_good r h, fun r h => gids_extract cfg cfg_good r h,
+   fun r h => numThreads_extract cfg cfg_good r h⟩
+
+/-- `num_ctx_switches()`: the unanchored `ctxt_switches:\t(\d+)` finds exactly the voluntary and
+    the nonvoluntary line, because `ctxt_switches:\t<digit>` (16 bytes, no backslash) fits in no
+    name of at most 15 bytes, however the kernel escapes it. -/
+theorem C06_ctx_switches_extract (r : StatusRec) (_hwf : r.WF) (hctx : r.WFCtx) :
+    numCtxSwitches cfg (renderStatus r) = .ok (Spec.numCtxSwitches r) :=
+  numCtxSwitches_extract cfg cfg_good r hctx
+
+/-! ### lead L18: the unanchored patterns (the code before the fix) -/
+
+def cfgUidUnanchored : Cfg := { cfg with uidAnchored := false }
+def cfgGidUnanchored : Cfg := { cfg with gidAnchored := false }
+def cfgThrUnanchored : Cfg := { cfg with thrAnchored := false }
+
+/-- a process of uid 1234 NAMED `Uid:\t0\t0\t0` is reported as uid (0, 0, 0) by the unanchored
+    pattern: the full statement is false of that code -/
+theorem C06_uids_unanchored_counterexample : ¬ UidsExact cfgUidUnanchored := by
+  intro h
+  have h1 := h (witnessStatus nameUid) (witnessStatus_wf _)
+  have h2 : uids cfgUidUnanchored (renderStatus (witnessStatus nameUid)) = .ok (0, 0, 0) := by
+    rw [witnessStatus_bytes]; decide
+  rw [h2] at h1
+  revert h1; decide
+
+theorem C06_gids_unanchored_counterexample : ¬ GidsExact cfgGidUnanchored := by
+  intro h
+  have h1 := h (witnessStatus nameGid) (witnessStatus_wf _)
+  have h2 : gids cfgGidUnanchored (renderStatus (witnessStatus nameGid)) = .ok (0, 0, 0) := by
+    rw [witnessStatus_bytes]; decide
+  rw [h2] at h1
+  revert h1; decide
+
+theorem C06_num_threads_unanchored_counterexample : ¬ NumThreadsExact cfgThrUnanchored := by
+  intro h
+  have h1 := h (witnessStatus nameThreads) (witnessStatus_wf _)
+  have h2 : numThreads cfgThrUnanchored (renderStatus (witnessStatus nameThreads)) = .ok 99 := by
+    rw [witnessStatus_bytes]; decide
+  rw [h2] at h1
+  revert h1; decide
+
+/-- Anchoring alone would not be enough if the status file were read in TEXT mode: universal
+    newlines turn a `\r` inside the name into a line start. `a\rUid:\t0\t0\t0` (14 bytes) then
+    defeats `(?m)^Uid:`; the binary open mode (`statusBinary`, a translator fact) is part of
+    `cfg_good` for this reason. -/
+def cfgTextMode : Cfg := { cfg with statusBinary := false }
+
+theorem C06_text_mode_counterexample : ¬ UidsExact cfgTextMode := by
+  intro h
+  have h1 := h (witnessStatus nameCrUid) (witnessStatus_wf _)
+  have h2 : uids cfgTextMode (renderStatus (witnessStatus nameCrUid)) = .ok (0, 0, 0) := by
+    rw [witnessStatus_bytes]; decide
+  rw [h2] at h1
+  revert h1; decide
+
+/-! ## the hypotheses are satisfiable (non-vacuity) -/
+
+example : witnessThread.WF := witnessThread_wf
+example : (witnessStatus nameUid).WF ∧ (witnessStatus nameUid).WFCtx :=
+  ⟨witnessStatus_wf _, by decide, by intro kv h; simp [witnessStatus] at h⟩
+/-- a status record with "other" lines meeting `OtherLine` and `NoCtxHit` -/
+example : ∃ r : StatusRec, r.pre ≠ [] ∧ r.WF ∧ r.WFCtx := by
+  refine ⟨{ witnessStatus nameUid with pre := [([80, 105, 100], [55])] }, by simp, ?_, by decide, ?_⟩
+  · intro kv h
+    simp [witnessStatus] at h
+    subst h
+    refine ⟨by decide, by decide, by decide, by decide, by decide, by decide⟩
+  · intro kv h
+    simp [witnessStatus] at h
+    subst h
+    exact noHit_of_no_x _ (by decide)
+/-- the theorems apply to the hostile witnesses themselves -/
+example : uids cfg (renderStatus (witnessStatus nameUid)) = .ok (1234, 1234, 1234) :=
+  C06_status_extract.1 _ (witnessStatus_wf _)
+example : threads cfg 100 [(7, renderStat witnessThread)] = .ok [⟨7, (300 : Nat) / (100 : Nat), (400 : Nat) / (100 : Nat)⟩] :=
+  C06_threads_exact 100 [witnessThread] (by intro r hr; simp at hr; subst hr; exact witnessThread_wf)
 
 end Psutil.C06
